@@ -37,6 +37,62 @@ func exprText(fset *token.FileSet, n ast.Node) string {
 	return s
 }
 
+// shapeText prints an expression with the names of local variables, parameters and receivers replaced by "_":
+// package-qualified names, field and method names, called functions and literals are kept.  Renaming a variable or
+// moving the code into a helper of the same file does not change the shape; a new site changes the count of its shape.
+func shapeText(fset *token.FileSet, n ast.Node, pkgs map[string]bool) string {
+	var rec func(e ast.Expr) ast.Expr
+	recList := func(l []ast.Expr) []ast.Expr {
+		var o []ast.Expr
+		for _, x := range l {
+			o = append(o, rec(x))
+		}
+		return o
+	}
+	rec = func(e ast.Expr) ast.Expr {
+		switch x := e.(type) {
+		case nil:
+			return nil
+		case *ast.Ident:
+			if pkgs[x.Name] || x.Name == "nil" || x.Name == "true" || x.Name == "false" {
+				return x
+			}
+			return &ast.Ident{Name: "_"}
+		case *ast.SelectorExpr:
+			return &ast.SelectorExpr{X: rec(x.X), Sel: x.Sel}
+		case *ast.CallExpr:
+			fun := x.Fun
+			if _, isId := fun.(*ast.Ident); !isId { // a plain function name is kept
+				fun = rec(fun)
+			}
+			return &ast.CallExpr{Fun: fun, Args: recList(x.Args), Ellipsis: x.Ellipsis}
+		case *ast.IndexExpr:
+			return &ast.IndexExpr{X: rec(x.X), Index: rec(x.Index)}
+		case *ast.SliceExpr:
+			return &ast.SliceExpr{X: rec(x.X), Low: rec(x.Low), High: rec(x.High), Max: rec(x.Max), Slice3: x.Slice3}
+		case *ast.BinaryExpr:
+			return &ast.BinaryExpr{X: rec(x.X), Op: x.Op, Y: rec(x.Y)}
+		case *ast.UnaryExpr:
+			return &ast.UnaryExpr{Op: x.Op, X: rec(x.X)}
+		case *ast.StarExpr:
+			return &ast.StarExpr{X: rec(x.X)}
+		case *ast.ParenExpr:
+			return &ast.ParenExpr{X: rec(x.X)}
+		case *ast.TypeAssertExpr:
+			return &ast.TypeAssertExpr{X: rec(x.X), Type: x.Type}
+		case *ast.CompositeLit:
+			return &ast.CompositeLit{Type: x.Type}
+		case *ast.KeyValueExpr:
+			return &ast.KeyValueExpr{Key: x.Key, Value: rec(x.Value)}
+		}
+		return e
+	}
+	if e, ok := n.(ast.Expr); ok {
+		return exprText(fset, rec(e))
+	}
+	return exprText(fset, n)
+}
+
 var panicSelectors = map[string]bool{
 	"Int64": true, "Uint64": true, "NewCoins": true, "NewCoin": true, "NewInt64Coin": true,
 	"NewDecCoins": true, "NewDecCoin": true, "MustNewDecFromStr": true, "MustUnmarshal": true, "MustMarshal": true,
@@ -58,6 +114,7 @@ func runInventoryCmd(args []string) {
 	// first pass: functions whose first result is a map, struct fields of map type
 	mapFuncs := map[string]bool{}
 	mapFields := map[string]bool{}
+	funcDecls := map[string]*ast.FuncDecl{} // dir + "." + name -> declaration (helpers called from a loop body)
 	for _, d := range inventoryDirs {
 		files, _ := filepath.Glob(filepath.Join(*repo, d, "*.go"))
 		for _, f := range files {
@@ -74,6 +131,9 @@ func runInventoryCmd(args []string) {
 				case *ast.FuncDecl:
 					if x.Type.Results != nil && len(x.Type.Results.List) > 0 && isMapType(x.Type.Results.List[0].Type) {
 						mapFuncs[x.Name.Name] = true
+					}
+					if x.Body != nil {
+						funcDecls[d+"."+x.Name.Name] = x
 					}
 				case *ast.StructType:
 					for _, fl := range x.Fields.List {
@@ -104,6 +164,15 @@ func runInventoryCmd(args []string) {
 				os.Exit(2)
 			}
 			rel := d + "/" + base
+			pkgs := map[string]bool{}
+			for _, im := range af.Imports {
+				path := strings.Trim(im.Path.Value, "\"")
+				name := path[strings.LastIndex(path, "/")+1:]
+				if im.Name != nil {
+					name = im.Name.Name
+				}
+				pkgs[name] = true
+			}
 			// process-local state: every field of every struct type and every package-level variable.  Consensus state
 			// has to live in the store (it is what a rejected or simulated transaction rolls back and what other nodes
 			// see); anything a keeper, decorator or package can remember outside it must be accounted for.
@@ -206,7 +275,10 @@ func runInventoryCmd(args []string) {
 					}
 				}
 				add := func(list *[]string, kind string, n ast.Node) {
-					*list = append(*list, fmt.Sprintf("%s|%s|%s|%s", rel, fn, kind, exprText(fset, n)))
+					*list = append(*list, fmt.Sprintf("%s|%s|%s|%s", rel, fn, kind, shapeText(fset, n, pkgs)))
+					if os.Getenv("VERIF_INV_DEBUG") != "" {
+						fmt.Printf("MAP\t%s|%s|%s|%s\t%s|%s|%s|%s\n", rel, fn, kind, exprText(fset, n), rel, fn, kind, shapeText(fset, n, pkgs))
+					}
 				}
 				ast.Inspect(fd.Body, func(n ast.Node) bool {
 					switch x := n.(type) {
@@ -267,30 +339,65 @@ func runInventoryCmd(args []string) {
 							// entries came first) and the calls made through a keeper / store (effects that have to commute)
 							exits := 0
 							calls := map[string]bool{}
-							ast.Inspect(x.Body, func(m ast.Node) bool {
-								switch y := m.(type) {
-								case *ast.FuncLit:
-									return false
-								case *ast.ReturnStmt:
-									exits++
-								case *ast.BranchStmt:
-									if y.Tok == token.BREAK || y.Tok == token.GOTO {
-										exits++
+							var scan func(body ast.Node, depth int)
+							scan = func(body ast.Node, depth int) {
+								ast.Inspect(body, func(m ast.Node) bool {
+									switch y := m.(type) {
+									case *ast.FuncLit:
+										return false
+									case *ast.ReturnStmt:
+										if depth == 0 {
+											exits++
+										}
+									case *ast.BranchStmt:
+										if depth == 0 && (y.Tok == token.BREAK || y.Tok == token.GOTO) {
+											exits++
+										}
+									case *ast.CallExpr:
+										// a helper of the same package (function or method): its effects are the loop's effects
+										hn := ""
+										if id, ok := y.Fun.(*ast.Ident); ok {
+											hn = id.Name
+										} else if se, ok := y.Fun.(*ast.SelectorExpr); ok {
+											if id, ok := se.X.(*ast.Ident); ok && !pkgs[id.Name] {
+												hn = se.Sel.Name
+											}
+										}
+										if fd2, ok := funcDecls[d+"."+hn]; ok && depth < 2 && hn != "" {
+											scan(fd2.Body, depth+1)
+										}
+										// calls through a keeper / store / processor value (not package functions, not conversions)
+										if se, ok := y.Fun.(*ast.SelectorExpr); ok {
+											root := se.X
+											for {
+												if in, ok := root.(*ast.SelectorExpr); ok {
+													root = in.X
+												} else if c2, ok := root.(*ast.CallExpr); ok {
+													root = c2.Fun
+												} else {
+													break
+												}
+											}
+											if id, ok := root.(*ast.Ident); ok && !pkgs[id.Name] {
+												for _, verb := range []string{"Set", "Delete", "Remove", "Allocate", "Send", "Slash", "Jail", "Unjail", "Mint", "Burn",
+													"Create", "Update", "Write", "Transfer", "Distribute", "Fund", "Call", "Convert", "Deduct", "Emit", "Store", "Put"} {
+													if strings.HasPrefix(se.Sel.Name, verb) {
+														calls[se.Sel.Name] = true
+													}
+												}
+											}
+										}
 									}
-								case *ast.CallExpr:
-									t := exprText(fset, y.Fun)
-									if strings.HasPrefix(t, "k.") || strings.HasPrefix(t, "store.") || strings.HasPrefix(t, "vp.") || strings.HasPrefix(t, "m.") {
-										calls[t] = true
-									}
-								}
-								return true
-							})
+									return true
+								})
+							}
+							scan(x.Body, 0)
 							var cl []string
 							for c := range calls {
 								cl = append(cl, c)
 							}
 							sort.Strings(cl)
-							mapRanges = append(mapRanges, fmt.Sprintf("%s|%s|range|%s exits=%d calls=%s", rel, fn, exprText(fset, x.X), exits, strings.Join(cl, ",")))
+							mapRanges = append(mapRanges, fmt.Sprintf("%s|%s|range|%s exits=%d calls=%s", rel, fn, shapeText(fset, x.X, pkgs), exits, strings.Join(cl, ",")))
 						}
 					}
 					return true
@@ -298,21 +405,12 @@ func runInventoryCmd(args []string) {
 			}
 		}
 	}
-	dedup := func(l []string) []string {
-		sort.Strings(l)
-		var o []string
-		for i, s := range l {
-			if i == 0 || s != l[i-1] {
-				o = append(o, s)
-			}
-		}
-		return o
-	}
 	var sb strings.Builder
 	sb.WriteString("(* generated from the source on every run by `harness inventory`; do not edit *)\nFrom Coq Require Import String List.\nImport ListNotations.\nOpen Scope string_scope.\n")
 	emit := func(name string, l []string) {
 		fmt.Fprintf(&sb, "Definition %s : list string := [\n", name)
-		for i, s := range dedup(l) {
+		sort.Strings(l) // duplicates are kept: sites are counted per shape
+		for i, s := range l {
 			if i > 0 {
 				sb.WriteString(";\n")
 			}
@@ -328,5 +426,5 @@ func runInventoryCmd(args []string) {
 		fmt.Println(err)
 		os.Exit(2)
 	}
-	fmt.Printf("INVENTORY panic_sites=%d map_ranges=%d clock_sites=%d state_sites=%d\n", len(dedup(panicSites)), len(dedup(mapRanges)), len(dedup(clockSites)), len(dedup(stateSites)))
+	fmt.Printf("INVENTORY panic_sites=%d map_ranges=%d clock_sites=%d state_sites=%d\n", len(panicSites), len(mapRanges), len(clockSites), len(stateSites))
 }
